@@ -64,6 +64,8 @@ def gen_programs(ctx, n_random, max_small_ops, extra_parens=False):
         out.append((proggen.pp(root), proggen.program_term(root), root, 'logic'))
     for name, root in proggen.loop_shapes():
         out.append((proggen.pp(root), proggen.program_term(root), root, 'loops'))
+    for name, root in proggen.equality_shapes():
+        out.append((proggen.pp(root), proggen.program_term(root), root, 'equality'))
     for _ in range(n_random):
         root = proggen.gen_program(rnd, rnd.randint(1, 4))
         src = proggen.pp(root, rnd if extra_parens else None)
